@@ -10,7 +10,7 @@ from ._water import scenario_facts
 
 PID = "C13"
 LEVEL = "model_checking"
-WITNESSES = ["off_season_day", "irrigated_day", "threshold_exceeded_day", "threshold_stage_2", "threshold_stage_3", "threshold_stage_4",
+WITNESSES = ["off_season_day", "stage_after_delayed_germination", "irrigated_day", "threshold_exceeded_day", "threshold_stage_2", "threshold_stage_3", "threshold_stage_4",
              "interval_day", "scheduled_application", "scheduled_date_outside_season", "schedule_capped_by_daily_max",
              "net_irrigation_day", "seasonal_cap_binding", "daily_max_binding"]
 NONTRIVIAL = [w for w in WITNESSES if w != "off_season_day"]
@@ -57,6 +57,13 @@ def scenarios(tier, seed=0):
                 spec = A.catalogue_spec(name, word="showers", iwc="FC", soil=soil, planting="10/15", start="2001/10/15", end="2002/09/30")
                 spec["irr"] = {"method": 4, "kw": {"NetIrrSMT": smt}}
                 yield {"kind": "spec", "spec": spec, "label": ["net-layered", name, soil, smt]}
+    # germination delayed by a dry seed bed (until the first shower), stage-dependent thresholds, calendar-day and thermal-time crops
+    for thermal, smt, word in itertools.product([False, True], ([0, 70, 70, 40], [80, 60, 40, 20], [20, 40, 60, 80]), ("normal", "showers")):
+        spec = A.to_spec(A._b(crop="maize.2", iwc="Pct10", word=word, win="w2", soil="SandyLoam"))
+        if thermal:
+            spec["crop"] = {"name": "MaizeGDD", "planting": "05/01", "harvest": "08/30", "scale": None, "gddscale": 0.15, "kw": {}}
+        spec["irr"] = irr_spec(1, {"SMT": smt}, None, 25, 10000, 100)
+        yield {"kind": "spec", "spec": spec, "label": ["delayed-germination", thermal, smt, word]}
     if tier != "quick":
         # starts after planting / off-season simulated / partial wetting / full-length crops
         for (method, kw, sch), off, wet in itertools.product(STRATS, [True], [100, 30]):
